@@ -37,6 +37,7 @@ pub fn run(cfg: &RunCfg) -> Ctx {
     all.floor("enforce.cut_off", 10);
     all.floor("enforce.min_is_header", 5);
     all.floor("enforce.min_is_configured", 5);
+    all.floor("enforce.malformed_header", 5);
     all
 }
 
@@ -216,6 +217,8 @@ fn enforce_case(rng: &mut Rng, ctx: &mut Ctx) {
     let header_ms: Option<u64> = if rng.chance(3, 4) { Some(base + rng.below(3) * 37) } else { None };
     let server_ms: Option<u64> = if rng.chance(1, 2) { Some(base + rng.below(3) * 41) } else { None };
     let endpoint_ms: Option<u64> = if rng.chance(1, 3) { Some(base + rng.below(3) * 43) } else { None };
+    // a malformed caller header must simply be ignored: the configured timeouts still apply
+    let malformed: Option<&str> = if header_ms.is_none() && rng.chance(2, 3) { Some(*rng.pick(&["1.5S", "30", "S", "123456789S", "5s", "10 S", "+5S", "-1S", "1e3m", ""])) } else { None };
     let eff: Option<u64> = [header_ms, server_ms, endpoint_ms].iter().flatten().min().copied();
     let latency = match (eff, rng.below(5)) {
         (Some(e), 0) => e.saturating_sub(2),
@@ -227,7 +230,7 @@ fn enforce_case(rng: &mut Rng, ctx: &mut Ctx) {
     };
     let shape = if rng.bool() { Shape::Unary } else { Shape::ServerStream };
     let script = Script { latency_ms: latency, msgs: vec![crate::pb::Msg { data: vec![1; 10], seq: 1, tag: "ok".into() }], ..Default::default() };
-    let spec = CallSpec { id: "t0".into(), shape, req_msgs: vec![crate::pb::Msg::default()], req_meta: vec![], req_pend: vec![], req_gaps_ms: vec![], timeout: header_ms.map(Duration::from_millis) };
+    let spec = CallSpec { id: "t0".into(), shape, req_msgs: vec![crate::pb::Msg::default()], req_meta: malformed.map(|m| vec![("grpc-timeout".to_string(), crate::gen::MVal::Ascii(m.to_string()))]).unwrap_or_default(), req_pend: vec![], req_gaps_ms: vec![], timeout: header_ms.map(Duration::from_millis) };
     let sc = Scenario {
         conns: 1,
         lazy: vec![rng.bool()],
@@ -244,14 +247,17 @@ fn enforce_case(rng: &mut Rng, ctx: &mut Ctx) {
         server_timeout: server_ms.map(Duration::from_millis),
         endpoint_timeout: endpoint_ms.map(Duration::from_millis),
     };
-    let case_json = json!({"shape": format!("{:?}", shape), "caller_timeout_ms": header_ms, "server_timeout_ms": server_ms, "endpoint_timeout_ms": endpoint_ms, "handler_latency_ms": latency, "effective_ms": eff});
+    let case_json = json!({"shape": format!("{:?}", shape), "caller_timeout_ms": header_ms, "server_timeout_ms": server_ms, "endpoint_timeout_ms": endpoint_ms, "handler_latency_ms": latency, "effective_ms": eff, "malformed_caller_header": malformed});
+    if malformed.is_some() {
+        ctx.count("enforce.malformed_header");
+    }
     let rel = match eff {
         None => "no-timeout",
         Some(e) if latency < e => "before",
         Some(e) if latency > e => "after",
         _ => "tie",
     };
-    ctx.begin(rel, case_json.clone());
+    ctx.begin(&format!("{}{}", rel, if malformed.is_some() { "-malformed-header" } else { "" }), case_json.clone());
     let out = run_scenario(&sc);
     let Some(view) = out.views[0].clone() else {
         ctx.violation("call-open", "call did not complete within 3600 virtual seconds".into());
